@@ -97,11 +97,15 @@ PROPS = {
     },
     "C09": {
         "level": EXPL,
-        "plan": [{"engine": "shipsim1", "timeout": T_SIM}, {"engine": "shipsim2", "timeout": T_SIM}],
+        "plan": [{"engine": "shipsim1", "timeout": T_SIM}, {"engine": "shipsim2", "timeout": T_SIM},
+                 {"engine": "hubnet", "timeout": {"quick": 900, "thorough": 5400}, "shards": 12}],
         "rule": "grid stored id {none, A} x presented id {A, B, empty, missing, number, null, 4 KiB, unicode, array} x role x order of access request/reply x trust mode, "
                 "followed by further input; B2 with stored ids none/right/wrong on either side of two real endpoints; the presented id is read by an independent strict "
-                "parser (ambiguous mutated messages give no verdict); distinct = (role, stored?, presented class) pairs",
-        "floors": {"evaluations": 3000, "classes": 15},
+                "parser (ambiguous mutated messages give no verdict); hub level: two real hubs that registered each other, the application stored none / the right / a wrong (other text, case, prefix, suffix) "
+                "SHIP ID for the peer's SKI before or after registering or after Start, under any SKI spelling; who dials is steered by mDNS visibility (inbound, outbound, both); second phase: the application stores the "
+                "reported id, reconnects, then the peer restarts with a changed id; oracle: never a setup at a hub whose stored id differs from the presented one, no id report once stored, a report of the real id before "
+                "each setup otherwise; distinct = (role, stored?, presented class) pairs and (dialler, stored kinds, phase, store moment) at hub level",
+        "floors": {"evaluations": 3000, "classes": 15, "counters": {"hubnet:hub:completed-with-stored-right-id:A": 3, "hubnet:hub:completed-after-first-report:A": 3}},
         "assumptions": ["messages containing the substring 'datagram' are routed to the SPINE path (documented rule) and not counted as presentations"],
     },
     "C14": {
